@@ -446,3 +446,6 @@ def _make_chain(m, vc):
 for _m in (0, 1, 2):
     for _vc in (False, True):
         _make_chain(_m, _vc)
+
+scn.register(globals(), {"C07", "C02", "C03", "C09"}, ["fan_retry_inner_retry"],
+             {"fan_retry_inner_retry": [("_k%d" % k, "kind == %d" % k) for k in (0, 1)]})
